@@ -96,6 +96,24 @@ fn csi(params: &str, f: char) -> Op {
     Op::Feed(vec![format!("\x1b[{}{}", params, f)], true)
 }
 
+/// For every single-chunk parser-path op add variants preceded by each poison sequence
+/// (a sequence that ends without dispatch): state leaking out of it changes what the
+/// op under test does. The model sees the whole string, so expectations stay exact.
+pub fn with_poison(ops: Vec<Op>) -> Vec<Op> {
+    let mut out = Vec::with_capacity(ops.len() * 3);
+    for op in ops {
+        if let Op::Feed(chunks, utf8) = &op {
+            if chunks.len() == 1 {
+                for p in crate::props3::poison_sequences().iter().take(5) {
+                    out.push(Op::Feed(vec![format!("{}{}", p, chunks[0])], *utf8));
+                }
+            }
+        }
+        out.push(op);
+    }
+    out
+}
+
 // =====================================================================  C05
 pub fn c05_ops(b: &Base) -> Vec<Op> {
     let (c, l) = (b.columns, b.lines);
@@ -142,7 +160,7 @@ pub fn c05_parser_ops(b: &Base) -> Vec<Op> {
     }
     v.push(Op::Feed(vec!["\x08".into()], true));
     v.push(Op::Feed(vec!["\r".into()], true));
-    v
+    with_poison(v)
 }
 
 pub fn c05(c: &Collector, g: &mut Guard) {
@@ -235,7 +253,7 @@ pub fn c07_ops(b: &Base) -> Vec<Op> {
         v.push(csi(h, 'K'));
         v.push(csi(h, 'X'));
     }
-    v
+    with_poison(v)
 }
 
 pub fn c07(c: &Collector, g: &mut Guard) {
@@ -273,7 +291,7 @@ pub fn c13_ops(b: &Base) -> Vec<Op> {
         v.push(csi(h, '@'));
         v.push(csi(h, 'P'));
     }
-    v
+    with_poison(v)
 }
 
 fn is_c13_judged(op: &Op) -> bool {
@@ -399,7 +417,7 @@ pub fn c06_ops(b: &Base) -> Vec<Op> {
         v.push(csi(h, 'r'));
     }
     let _ = c;
-    v
+    with_poison(v)
 }
 
 pub fn c06(c: &Collector, g: &mut Guard) {
